@@ -44,7 +44,7 @@ BOUND = {
     "thorough": "seq: length <=6; cat: L(4,3) x catalogue x every site x blanks 0..2; voc: full one-row product, two-row with one deviating slot, three-row malformed x representative",
 }
 # as-built additions to the bound (kept next to BOUND so that the evidence reports them)
-BOUND = {k: v + "; plus: " + 'alias / canonical header pairs in both column orders (survey, settings); a markdown row wider than its header; table-list groups around from-file / reference-built lists; a search() list shared with a randomize select; jr and flat headers; catalogue entries for entity save_to errors and for errors that depend on earlier rows; survey / choices column headers equal to internal keys; osm sheet variants' for k, v in BOUND.items()}
+BOUND = {k: v + "; plus: " + '16 candidate names for the form itself (settings name / form_id, form_name argument) and for loop-built groups; alias / canonical header pairs in both column orders (survey, settings); a markdown row wider than its header; table-list groups around from-file / reference-built lists; a search() list shared with a randomize select; jr and flat headers; catalogue entries for entity save_to errors and for errors that depend on earlier rows; survey / choices column headers equal to internal keys; osm sheet variants' for k, v in BOUND.items()}
 
 NAMES = ["a", "b", "d", "e", "f", "g"]
 CHOICES = [{"list_name": "c", "name": "x", "label": "X"}, {"list_name": "c", "name": "y", "label": "Y"}]
@@ -1078,10 +1078,45 @@ def check_voc(case):
     return {"outcome": f"voc-{out.kind}", "nt": mal and not viol, "viol": viol, "tr": len(wb["survey"])}
 
 
+# names that are only checked when the survey tree is validated: the form's own name and the groups a loop builds from choice names
+FORM_NAMES = ["a:b:c", "a:", ":", "a:b", "_", "a.b", "1a", "a b", "\u00e9:\u00e8", "a::b", "-a", "a-", "x" * 70, "data", "meta", ""]
+
+
+def gen_formnames(tier):
+    for nm in FORM_NAMES:
+        for ch in ("settings-name", "form_name-arg", "loop-choice", "settings-form_id", "repeat-in-loop-choice"):
+            yield {"g": "formname", "name": nm, "ch": ch}
+
+
+def check_formname(case):
+    nm, ch = case["name"], case["ch"]
+    wb = {"survey": [{"type": "text", "name": "q", "label": "Q"}]}
+    kw = {}
+    if ch == "settings-name":
+        wb["settings"] = [{"name": nm}]
+    elif ch == "settings-form_id":
+        wb["settings"] = [{"form_id": nm}]
+    elif ch == "form_name-arg":
+        kw["form_name"] = nm
+    else:
+        inner = [{"type": "text", "name": "lq", "label": "LQ"}]
+        if ch.startswith("repeat"):
+            inner = [{"type": "begin repeat", "name": "lr", "label": "LR"}, *inner, {"type": "end repeat"}]
+        wb["survey"] += [{"type": "begin loop over t", "name": "lp", "label": "LP"}, *inner, {"type": "end loop"}]
+        wb["choices"] = [{"list_name": "t", "name": nm, "label": "N"}, {"list_name": "t", "name": "ok1", "label": "O"}]
+    out = run_convert(wb, **kw)
+    viol = []
+    if out.kind == "crash":
+        viol.append((f"internal-exception:{out.exc}:{out.where}:formname:{ch}", f"name={nm!r}: {out.msg[:160]}"))
+    elif out.kind == "reject" and not (out.msg or "").strip():
+        viol.append(("empty-message:formname", repr(nm)))
+    return {"outcome": f"voc-{out.kind}", "nt": not viol, "viol": viol, "tr": 2}
+
+
 # --------------------------------------------------------------------------- engine -----
 from xmc.spaces import GenSpace  # noqa: E402
 
-SPACE = GenSpace({"seq": gen_seq, "cat": gen_cat, "voc1": gen_voc1, "vocint": gen_vocint, "vocch": gen_vocch, "vocosm": gen_vocosm, "voc2": gen_voc2, "voc3": gen_voc3}, chunk=500)
+SPACE = GenSpace({"formnames": gen_formnames, "seq": gen_seq, "cat": gen_cat, "voc1": gen_voc1, "vocint": gen_vocint, "vocch": gen_vocch, "vocosm": gen_vocosm, "voc2": gen_voc2, "voc3": gen_voc3}, chunk=500)
 blocks = SPACE.blocks
 expand = SPACE.expand
 
@@ -1098,4 +1133,6 @@ def check_one(case):
         return check_cat(case)
     if g == "hdr":
         return check_hdr(case)
+    if g == "formname":
+        return check_formname(case)
     return check_voc(case)
